@@ -509,4 +509,5 @@ def int_of_str(interp, s):
 
 
 def join_slist(interp, sep, xs):
-    raise Unsupported('str.join over symbolic-length sequence (use a spec function / measure)')
+    from . import loops
+    return loops.join_slist(interp, sep, xs)
